@@ -162,6 +162,34 @@ fn run(case: &Value) -> Value {
                 json!({ "ok": results, "descriptions": descs })
             })
         }
+        "unit_powers" => {
+            // Unit from its serialised form: "Meter" | {"Derived": id}
+            let unit: anything::Unit = match case.get("id").and_then(|v| v.as_u64()) {
+                Some(id) => {
+                    let mut m = std::collections::BTreeMap::new();
+                    m.insert(serde_cbor::Value::Text("Derived".into()), serde_cbor::Value::Integer(id as i128));
+                    let bytes = serde_cbor::to_vec(&serde_cbor::Value::Map(m)).unwrap();
+                    match serde_cbor::from_slice(&bytes) {
+                        Ok(u) => u,
+                        Err(e) => return json!({ "err": e.to_string() }),
+                    }
+                }
+                None => {
+                    let bytes = serde_cbor::to_vec(&serde_cbor::Value::Text(case["unit"].as_str().unwrap_or("").into())).unwrap();
+                    match serde_cbor::from_slice(&bytes) {
+                        Ok(u) => u,
+                        Err(e) => return json!({ "err": e.to_string() }),
+                    }
+                }
+            };
+            let mut powers = anything::Powers::default();
+            unit.powers(&mut powers, case["power"].as_i64().unwrap_or(1) as i32);
+            let mut out = Vec::new();
+            for (u, p) in powers.iter() {
+                out.push(json!([format!("{:?}", u).split('(').next().unwrap_or("?"), p]));
+            }
+            json!({ "ok": out })
+        }
         "compound" => {
             let text = case["text"].as_str().unwrap_or("");
             match str::parse::<anything::Compound>(text) {
